@@ -359,6 +359,22 @@ def run_once(prior, mode, target=None, second=False):
             finally:
                 sys.stderr, sys.stdout = old_err, old_out
             res["snap2"] = snapshot(cfgdir)
+            # the user then edits the file by hand (a tuned adeu entry, or a slip that leaves invalid JSON) and runs
+            # the command once more - possibly within the same second, certainly on the same day
+            edited = (b'{"mcpServers": {"adeu": {"command": "my-own-wrapper", "args": ["--tuned"]}, "keep": {"command": "x"}}, "hand": true}'
+                      if len(raw or b"") % 2 == 0 else b'{"mcpServers": {"keep": {"command": "x"}},, "oops": }')
+            with open(cfgpath, "wb") as f:
+                f.write(edited)
+            sys.stderr, sys.stdout = err, err
+            try:
+                cli.handle_init(argparse.Namespace(local=(mode == "local")))
+                res["third"] = "ok"
+            except BaseException as e:
+                res["third"] = type(e).__name__
+            finally:
+                sys.stderr, sys.stdout = old_err, old_out
+            res["user_edit"] = edited
+            res["snap3"] = snapshot(cfgdir)
         cli._get_claude_config_path = saved
         return res
     finally:
@@ -444,6 +460,9 @@ def oracle(w):
             fails.append(f"second run did not succeed: {clean.get('second')}")
         elif (clean.get("snap2") or {}).get(CFG) != snap.get(CFG):
             fails.append("running the command again changed the configuration file")
+        if clean.get("user_edit") is not None and clean["user_edit"] not in (clean.get("snap3") or {}).values():
+            fails.append(f"a later run (outcome {clean.get('third')}) after the user edited the file: the edited content is neither "
+                         "in the configuration file nor in a backup next to it")
     elif clean["outcome"] not in ("AttributeError", "TypeError", "UnicodeDecodeError"):
         # the command may refuse unexpected shapes, but then the file must be untouched (checked above) ...
         if (clean["snap"] or {}).get(CFG) != raw and raw is not None:
